@@ -303,6 +303,24 @@ PROPS = {
         design_ref='DESIGN.md section 8 (C12)',
         assumptions=['Go RWMutex: a waiting writer blocks new readers'],
     ),
+    'C13': dict(
+        monitor=True,
+        streams=[chain_stream(5000, 150000, _nt_bound, name='regroup'), pair_stream('unused', 5000, 150000), chain_stream(2000, 50000, _nt_bound)],
+        rule=CHAIN_RULE + 'stream regroup: ordinary chains whose provider list the harness builds through a seeded recipe of nested Sequences (named, unnamed, '
+             'empty neighbours, three levels), base.Append (with a second, unrelated Append on the same base afterwards), Provide names and annotations '
+             '(Desired/Cacheable/Required/Shun/NonFinal) lifted from every member of a run to the enclosing collection; the observation must equal the model '
+             'run on the flat list (the leaves). stream unused: a chain in which nothing mentions Unused, paired with the same chain with an Unused parameter '
+             'added to the final function, a Required provider, the invoke or the init function; monitor: same validity, same user providers included, same '
+             'results and call log once the added argument is dropped; non-trivial: the base binds',
+        level_text='Theorems C13_contents_are_leaves (for every construction expression over Sequence/Append/annotation-of-a-collection, the collection built holds '
+                   'the leaves in order with the enclosing annotations applied), C13_names_irrelevant and C13_grouping_neutral (two lists equal up to names, no named '
+                   'edit present: identical Bind result, plan, results and call log of the whole model), C13_unused_param_neutral_partial (reference semantics: '
+                   'parameters of a type the chain does not otherwise read, ignored by the behaviours, change neither world nor returned values, for all programs); Coq, '
+                   'no axioms. Partial for the Unused half: that selection includes the same providers in the variant (the synthetic Unused provider and receiver '
+                   'shift positions) is validated by the pair stream, not proved.',
+        level_note=CHAIN_NOTE, design_ref='DESIGN.md section 8 (C13)',
+        assumptions=['Unused neutrality of selection validated differentially, not proved'],
+    ),
     'C14': dict(
         monitor=True,
         streams=[pair_stream('desired', 5000, 150000), chain_stream(3000, 100000, _nt_bound)],
